@@ -1,140 +1,355 @@
 import RawPanelVerif.Lemmas.NetFeed
 import RawPanelVerif.Lemmas.NetAscii
+import RawPanelVerif.Lemmas.NetTimed
+import RawPanelVerif.Model.NetWriter
 /-!
 # C09 — submitted messages reach the panel intact, in order, in the negotiated encoding
 
-Property theorems only.  The writer goroutine (connecttopanel.go 135-170) is the LTS `Net.wstep` with labels
-`submit` (a goroutine's send is ordered into the channel), `take` (the writer receives a list and writes it) and
-`panelTraffic` (the reader consumes bytes from the panel).  `marshal` bytes and converter lines are opaque.
+Property theorems only.  The writer goroutine (connecttopanel.go 138-174) is the LTS `Net.wstep` (Model/NetWriter):
+`submit` (a goroutine's send is ordered into the channel), `take` (the writer receives a list), one `conn.Write` per
+message / converter line — `writeOk`, or an error after a proper prefix: `writeTimeout` (the connection's *write
+deadline* has passed) or `writeError` (connection broken, sticky) — and `readerOp op now`: the reader goroutine
+executes one of its `Set…Deadline` calls on the *same* connection (`Net.Cfg`: every call site with its kind,
+`SetReadDeadline` or `SetDeadline`).  `marshal` bytes and converter lines are opaque.  Reconnects are the LTS
+`Net.rstep`: one writer goroutine per connection, all receiving from the one channel.
 
-* `written_is_concat`            in every execution: bytes written = concatenation, in channel order, of one frame
-                                 per message (binary) / one `line ++ LF` per converter line (ASCII), and the lists
-                                 taken so far followed by those still pending are the submitted ones, in order
-* `reads_do_not_affect_writes`   deleting every `panelTraffic` label changes neither what is written nor its order
+One connection (every run, any interleaving of the labels, any number of submitters):
+* `write_deadline_never_armed`   the reader's calls are all `SetReadDeadline` (`repaired.readOnly`, checked on the
+                                 configuration): the write deadline stays cleared in every run of the writer LTS, and in
+                                 every reachable state of the reader LTS (`reader_never_arms_write_deadline`)
+* `written_isPrefix`             what reached the wire is a prefix of the concatenation, in channel order, of the
+                                 frames (lines + LF) of the lists taken; it is that concatenation minus the chunks not
+                                 yet written unless a write returned an error; taken ++ pending = submitted
+* `written_is_concat`, `drained_all_written`   no failed write, current list finished: written = the concatenation
+* `writes_never_interleave`      at every moment the wire holds the complete lists taken before the current one,
+                                 followed by the first k chunks of the current one: contiguous, never interleaved
+                                 (`take` is not atomic here: submits and reader calls interleave with the writes)
+* `reads_do_not_affect_writes`   deleting every `readerOp` from a run leaves a run with the same writer-visible state:
+                                 not a tautology now, it holds because the write deadline is never armed, and
+* `set_deadline_breaks_writes_counterexample`   fails for the configuration of seeded changes C09-3 / C09-4
+                                 (`SetDeadline` at 198): a write times out half-way, the next succeeds: the stream is
+                                 no prefix of the frames any more
 * `frames_of_written`            the panel-side reference parse of what was written in binary mode returns exactly
                                  the submitted payloads, in order, nothing left over
 * `ascii_one_lf_per_line`        the panel-side split at LF of what was written in ASCII mode returns exactly the
                                  converter lines (each terminated by exactly one LF), nothing left over
-* `writes_never_interleave`      what one submission contributes is contiguous in the written stream
+Reconnects (every run of `Net.rstep` with `close(quit)`):
+* `single_writer`                at most one writer goroutine exists, and it belongs to the current connection
+* `taken_while_connected_written_to_live_conn`   a list received while a connection is up is written to that
+                                 connection; no list is ever lost to a writer of a dead connection while one is up
+* `stale_writer_counterexample`  with a non-blocking `quit <- true` instead of `close(quit)` (seeded change C09-5) a
+                                 writer that was busy when its connection was lost survives, and after the reconnect a
+                                 list handed over on the new connection is written to the dead one
+Assumptions named by the model: one label = one Go statement group; a `conn.Write` error other than a timeout is
+sticky; channel order = order of the `submit` labels; in `rstep` a writer whose quit signal is visible has returned
+before the retry period (≥ 1 s) ends (a timing assumption: Go's `select` may pick the channel over the closed `quit`).
 -/
 namespace RawPanelVerif.C09
 open RawPanelVerif RawPanelVerif.Net
-
-def WInv (m : Mode) (s : WSt) (subs : List Submission) : Prop :=
-  s.written = writeBytes m s.taken ∧ s.taken ++ s.pending = subs
 
 theorem writeBytes_append (m : Mode) (a b : List Submission) :
     writeBytes m (a ++ b) = writeBytes m a ++ writeBytes m b := by
   simp [writeBytes]
 
-theorem winv_step (m : Mode) (s s' : WSt) (l : WLbl) (subs : List Submission) (h : WInv m s subs)
-    (hs : wstep m s l = some s') : WInv m s' (subs ++ submitted [l]) := by
-  obtain ⟨h1, h2⟩ := h
-  cases l with
-  | submit x =>
-    simp only [wstep, Option.some.injEq] at hs; subst hs
-    exact ⟨h1, by simp [submitted, ← h2]⟩
-  | take =>
-    simp only [wstep] at hs
-    split at hs
-    · simp at hs
-    · rename_i x r hp
-      simp only [Option.some.injEq] at hs; subst hs
-      refine ⟨?_, ?_⟩
-      · simp [h1, writeBytes_append, writeBytes]
-      · simp [submitted, ← h2, hp]
-  | panelTraffic n =>
-    simp only [wstep, Option.some.injEq] at hs; subst hs
-    exact ⟨h1, by simp [submitted, h2]⟩
+/-! ### one connection -/
 
 theorem submitted_cons (l : WLbl) (ls : List WLbl) : submitted (l :: ls) = submitted [l] ++ submitted ls := by
   cases l <;> simp [submitted]
 
-theorem winv_run (m : Mode) (ls : List WLbl) : ∀ (s s' : WSt) (subs : List Submission), WInv m s subs →
-    wrun m s ls = some s' → WInv m s' (subs ++ submitted ls) := by
+theorem writeBytes_snoc (m : Mode) (a : List Submission) (x : Submission) :
+    writeBytes m (a ++ [x]) = writeBytes m a ++ (chunks m x).flatten := by
+  rw [writeBytes_append]; simp [writeBytes, writeOne_eq_chunks]
+
+/-- the invariant of the writer LTS for configurations whose reader calls never touch the write deadline -/
+structure WInv (m : Mode) (s : WSt) (subs : List Submission) : Prop where
+  subs : s.taken ++ s.pending = subs
+  wdl : s.wdl = none
+  sticky : s.failed = s.broken
+  pre : ∃ rest, s.written ++ rest = writeBytes m s.taken ∧ (s.failed = false → rest = s.cur.flatten)
+  cur : s.cur = [] ∨ ∃ pre x k, s.taken = pre ++ [x] ∧ s.cur = (chunks m x).drop k
+
+theorem winv_init (m : Mode) : WInv m WSt.init [] :=
+  ⟨rfl, rfl, rfl, ⟨[], by simp [WSt.init, writeBytes], fun _ => rfl⟩, Or.inl rfl⟩
+
+theorem ops_readOnly (cfg : Cfg) (h : cfg.readOnly = true) (op : DlOp) (hop : op ∈ cfg.ops) : op.readOnly = true := by
+  simp only [Cfg.readOnly, List.all_eq_true] at h
+  exact h op hop
+
+theorem winv_step (cfg : Cfg) (hro : cfg.readOnly = true) (m : Mode) (s s' : WSt) (l : WLbl) (subs : List Submission)
+    (h : WInv m s subs) (hs : wstep cfg m s l = some s') : WInv m s' (subs ++ submitted [l]) := by
+  obtain ⟨h1, h2, h3, ⟨rest, h4, h5⟩, h6⟩ := h
+  cases l with
+  | submit x =>
+    simp only [wstep, Option.some.injEq] at hs; subst hs
+    exact ⟨by simp [submitted, ← h1], h2, h3, ⟨rest, h4, h5⟩, h6⟩
+  | take =>
+    simp only [wstep] at hs
+    split at hs
+    · rename_i x r hc hp
+      simp only [Option.some.injEq] at hs; subst hs
+      refine ⟨by simp [submitted, ← h1, hp], h2, h3, ⟨rest ++ (chunks m x).flatten, ?_, ?_⟩, ?_⟩
+      · simp only; rw [writeBytes_snoc, ← List.append_assoc, h4]
+      · intro hf; simp only at hf ⊢; rw [h5 hf, hc]; simp
+      · exact Or.inr ⟨s.taken, x, 0, rfl, by simp⟩
+    · cases hs
+  | writeOk now =>
+    simp only [wstep] at hs
+    split at hs
+    · rename_i c rc hc
+      split at hs
+      · rename_i hg
+        simp only [Option.some.injEq] at hs; subst hs
+        have hf : s.failed = false := by rw [h3]; exact hg.1
+        refine ⟨by simpa [submitted] using h1, h2, h3, ⟨rc.flatten, ?_, fun _ => rfl⟩, ?_⟩
+        · simp only; rw [List.append_assoc, ← h4, h5 hf, hc]; simp
+        · rcases h6 with h6 | ⟨pre, x, k, ht, hk⟩
+          · rw [hc] at h6; cases h6
+          · refine Or.inr ⟨pre, x, k + 1, ht, ?_⟩
+            simp only
+            rw [hc] at hk
+            have : (chunks m x).drop (k + 1) = ((chunks m x).drop k).drop 1 := by rw [List.drop_drop]
+            rw [this, ← hk]; rfl
+      · cases hs
+    · cases hs
+  | writeTimeout now k =>
+    simp only [wstep] at hs
+    split at hs
+    · split at hs
+      · rename_i hg
+        have := hg.2.1
+        simp [wExpired, h2] at this
+      · cases hs
+    · cases hs
+  | writeError now k =>
+    simp only [wstep] at hs
+    split at hs
+    · rename_i c rc hc
+      split at hs
+      · rename_i hk
+        simp only [Option.some.injEq] at hs; subst hs
+        refine ⟨by simpa [submitted] using h1, h2, rfl, ?_, ?_⟩
+        · cases hb : s.broken with
+          | true => exact ⟨rest, by simpa [hb] using h4, fun hf => by simp at hf⟩
+          | false =>
+            have hf : s.failed = false := by rw [h3]; exact hb
+            refine ⟨c.drop k ++ rc.flatten, ?_, fun hf => by simp at hf⟩
+            simp only [hb, Bool.false_eq_true, if_false]
+            rw [List.append_assoc, ← List.append_assoc (c.take k), List.take_append_drop, ← h4, h5 hf, hc]; simp
+        · rcases h6 with h6 | ⟨pre, x, j, ht, hj⟩
+          · rw [hc] at h6; cases h6
+          · refine Or.inr ⟨pre, x, j + 1, ht, ?_⟩
+            simp only
+            rw [hc] at hj
+            have : (chunks m x).drop (j + 1) = ((chunks m x).drop j).drop 1 := by rw [List.drop_drop]
+            rw [this, ← hj]; rfl
+      · cases hs
+    · cases hs
+  | readerOp op now =>
+    simp only [wstep] at hs
+    split at hs
+    · rename_i hop
+      simp only [Option.some.injEq] at hs; subst hs
+      refine ⟨by simpa [submitted] using h1, ?_, h3, ⟨rest, h4, h5⟩, h6⟩
+      simp only
+      rw [apply_readOnly_wr op now _ (ops_readOnly cfg hro op hop)]; exact h2
+    · cases hs
+
+theorem winv_run (cfg : Cfg) (hro : cfg.readOnly = true) (m : Mode) (ls : List WLbl) :
+    ∀ (s s' : WSt) (subs : List Submission), WInv m s subs → wrun cfg m s ls = some s' → WInv m s' (subs ++ submitted ls) := by
   induction ls with
   | nil => intro s s' subs h hr; simp [wrun] at hr; subst hr; simpa [submitted] using h
   | cons l ls ih =>
     intro s s' subs h hr
     simp only [wrun] at hr
     split at hr
-    · simp at hr
+    · cases hr
     · rename_i s1 h1
-      have := ih s1 s' _ (winv_step m s s1 l subs h h1) hr
+      have := ih s1 s' _ (winv_step cfg hro m s s1 l subs h h1) hr
       rw [submitted_cons, ← List.append_assoc]; exact this
 
-/-- **written = concatenation in channel order**, over all executions of the writer LTS (any interleaving of
-submissions by any number of goroutines, writer steps and incoming traffic, of any length) -/
-theorem written_is_concat (m : Mode) (ls : List WLbl) (s : WSt) (h : wrun m WSt.init ls = some s) :
+theorem repaired_readOnly : repaired.readOnly = true := by decide
+theorem pinned_readOnly : pinned.readOnly = true := by decide
+
+/-- **the write deadline is never armed**: all `Set…Deadline` calls of the reader are `SetReadDeadline`
+(`repaired.readOnly`, a check on the configuration), so in every run of the writer LTS — any interleaving of submits,
+writes and reader calls at any times — the connection's write deadline stays cleared, and no `conn.Write` can time out -/
+theorem write_deadline_never_armed (cfg : Cfg) (hro : cfg.readOnly = true) (m : Mode) (ls : List WLbl) (s : WSt)
+    (h : wrun cfg m WSt.init ls = some s) :
+    s.wdl = none ∧ ∀ now k, wstep cfg m s (.writeTimeout now k) = none := by
+  have hi := winv_run cfg hro m ls WSt.init s [] (winv_init m) h
+  refine ⟨hi.wdl, fun now k => ?_⟩
+  simp only [wstep]
+  split
+  · simp [wExpired, hi.wdl]
+  · rfl
+
+/-- the same fact on the reader's side: in every reachable state of the reader LTS the write deadline is cleared -/
+theorem reader_never_arms_write_deadline (cfg : Cfg) (hro : cfg.readOnly = true) (s : CState) (h : Reachable cfg s) :
+    s.dl.wr = none := by
+  obtain ⟨tp, ls, e, hr⟩ := h
+  refine runL_induct cfg (fun s => s.dl.wr = none) (fun a b l e ha hs => wr_step cfg hro a b l e ha hs) ls _ s e ?_ hr
+  show (cfg.probeArm.apply tp {}).wr = none
+  rw [apply_readOnly_wr _ _ _ (readOnly_fields cfg hro).1]
+
+/-- **what reached the wire** (every run; configurations whose reader calls are read-only, e.g. the code as it is):
+a prefix of the concatenation, in channel order, of one frame per message (binary) / one `line ++ LF` per converter
+line (ASCII) of the lists taken so far; exactly that concatenation minus the chunks still to be written, unless a
+`conn.Write` returned an error; and the lists taken followed by those still queued are the submitted ones, in order -/
+theorem written_isPrefix (cfg : Cfg) (hro : cfg.readOnly = true) (m : Mode) (ls : List WLbl) (s : WSt)
+    (h : wrun cfg m WSt.init ls = some s) :
+    s.written <+: writeBytes m s.taken ∧
+    (s.failed = false → s.written ++ s.cur.flatten = writeBytes m s.taken) ∧
+    s.taken ++ s.pending = submitted ls := by
+  have hi := winv_run cfg hro m ls WSt.init s [] (winv_init m) h
+  obtain ⟨rest, h4, h5⟩ := hi.pre
+  exact ⟨⟨rest, h4⟩, fun hf => by rw [← h5 hf]; exact h4, by simpa using hi.subs⟩
+
+/-- no failed write and the current list finished: bytes written = the concatenation, in channel order -/
+theorem written_is_concat (cfg : Cfg) (hro : cfg.readOnly = true) (m : Mode) (ls : List WLbl) (s : WSt)
+    (h : wrun cfg m WSt.init ls = some s) (hf : s.failed = false) (hc : s.cur = []) :
     s.written = writeBytes m s.taken ∧ s.taken ++ s.pending = submitted ls := by
-  have := winv_run m ls WSt.init s [] ⟨by simp [WSt.init, writeBytes], by simp [WSt.init]⟩ h
-  simpa [WInv] using this
+  obtain ⟨_, h2, h3⟩ := written_isPrefix cfg hro m ls s h
+  have := h2 hf
+  rw [hc] at this
+  exact ⟨by simpa using this, h3⟩
 
 /-- when the queue has drained, everything submitted has been written, in submission order -/
-theorem drained_all_written (m : Mode) (ls : List WLbl) (s : WSt) (h : wrun m WSt.init ls = some s)
-    (hq : s.pending = []) : s.written = writeBytes m (submitted ls) := by
-  obtain ⟨h1, h2⟩ := written_is_concat m ls s h
+theorem drained_all_written (cfg : Cfg) (hro : cfg.readOnly = true) (m : Mode) (ls : List WLbl) (s : WSt)
+    (h : wrun cfg m WSt.init ls = some s) (hf : s.failed = false) (hc : s.cur = []) (hq : s.pending = []) :
+    s.written = writeBytes m (submitted ls) := by
+  obtain ⟨h1, h2⟩ := written_is_concat cfg hro m ls s h hf hc
   rw [hq, List.append_nil] at h2
   rw [h1, h2]
 
-def notTraffic : WLbl → Bool
-  | .panelTraffic _ => false
+/-- **never interleaved**: at every moment of every run (no failed write) the wire holds the complete output of the
+lists taken before the current one, followed by the first k chunks of the current one -/
+theorem writes_never_interleave (cfg : Cfg) (hro : cfg.readOnly = true) (m : Mode) (ls : List WLbl) (s : WSt)
+    (h : wrun cfg m WSt.init ls = some s) (hf : s.failed = false) :
+    (s.cur = [] ∧ s.written = writeBytes m s.taken) ∨
+    ∃ pre x k, s.taken = pre ++ [x] ∧ s.written = writeBytes m pre ++ ((chunks m x).take k).flatten := by
+  have hi := winv_run cfg hro m ls WSt.init s [] (winv_init m) h
+  obtain ⟨rest, h4, h5⟩ := hi.pre
+  have h5 := h5 hf
+  rcases hi.cur with hc | ⟨pre, x, k, ht, hk⟩
+  · left; refine ⟨hc, ?_⟩; rw [h5, hc] at h4; simpa using h4
+  · right
+    refine ⟨pre, x, k, ht, ?_⟩
+    rw [h5, hk, ht, writeBytes_snoc] at h4
+    have : (chunks m x).flatten = ((chunks m x).take k).flatten ++ ((chunks m x).drop k).flatten := by
+      rw [← List.flatten_append, List.take_append_drop]
+    rw [this, ← List.append_assoc] at h4
+    exact List.append_cancel_right h4
+
+/-! #### reader calls and the writer -/
+
+def notReaderOp : WLbl → Bool
+  | .readerOp _ _ => false
   | _ => true
 
-/-- the part of the writer state the writer itself reads and writes -/
-def core (s : WSt) : List Submission × List Submission × Bytes := (s.pending, s.taken, s.written)
+/-- the part of the state the writer itself reads and writes (everything but the read deadline) -/
+def core (s : WSt) : List Submission × List Submission × List Bytes × Bytes × Option Nat × Bool × Bool :=
+  (s.pending, s.taken, s.cur, s.written, s.wdl, s.broken, s.failed)
 
-theorem wstep_core (m : Mode) (a b a' : WSt) (l : WLbl) (hc : core a = core b) (hs : wstep m a l = some a') :
-    ∃ b', wstep m b l = some b' ∧ core a' = core b' := by
-  obtain ⟨ap, at', aw, ai⟩ := a
-  obtain ⟨bp, bt, bw, bi⟩ := b
-  simp only [core, Prod.mk.injEq] at hc
-  obtain ⟨h1, h2, h3⟩ := hc
-  subst h1 h2 h3
+theorem wstep_rdl (cfg : Cfg) (m : Mode) (a : WSt) (r : Option Nat) (l : WLbl) (hl : notReaderOp l = true) :
+    wstep cfg m { a with rdl := r } l = (wstep cfg m a l).map (fun x => { x with rdl := r }) := by
+  obtain ⟨ap, at', ac, aw, awd, ard, ab, af⟩ := a
   cases l with
-  | submit x => simp only [wstep, Option.some.injEq] at hs; subst hs; exact ⟨_, rfl, rfl⟩
-  | take =>
-    cases ap with
-    | nil => simp [wstep] at hs
-    | cons x r => simp only [wstep, Option.some.injEq] at hs; subst hs; exact ⟨_, rfl, rfl⟩
-  | panelTraffic n => simp only [wstep, Option.some.injEq] at hs; subst hs; exact ⟨_, rfl, rfl⟩
+  | submit x => rfl
+  | take => cases ac <;> cases ap <;> rfl
+  | writeOk now =>
+    cases ac with
+    | nil => rfl
+    | cons c rc =>
+      by_cases hg : ab = false ∧ wExpired awd now = false
+      · simp only [wstep, hg, and_self, if_true, Option.map]
+      · simp only [wstep, hg, if_false, Option.map]
+  | writeTimeout now k =>
+    cases ac with
+    | nil => rfl
+    | cons c rc =>
+      by_cases hg : ab = false ∧ wExpired awd now = true ∧ k < c.length
+      · simp only [wstep, hg, and_self, if_true, Option.map]
+      · simp only [wstep, hg, if_false, Option.map]
+  | writeError now k =>
+    cases ac with
+    | nil => rfl
+    | cons c rc =>
+      by_cases hg : k < c.length
+      · simp only [wstep, hg, if_true, Option.map]
+      · simp only [wstep, hg, if_false, Option.map]
+  | readerOp op now => cases hl
 
-theorem wrun_core (m : Mode) (ls : List WLbl) : ∀ (a b a' : WSt), core a = core b → wrun m a ls = some a' →
-    ∃ b', wrun m b ls = some b' ∧ core a' = core b' := by
-  induction ls with
-  | nil => intro a b a' hc hr; simp [wrun] at hr; subst hr; exact ⟨b, rfl, hc⟩
-  | cons l ls ih =>
-    intro a b a' hc hr
-    simp only [wrun] at hr
-    split at hr
-    · simp at hr
-    · rename_i a1 h1
-      obtain ⟨b1, hb1, hc1⟩ := wstep_core m a b a1 l hc h1
-      obtain ⟨b', hb', hc'⟩ := ih a1 b1 a' hc1 hr
-      exact ⟨b', by simp only [wrun, hb1]; exact hb', hc'⟩
+theorem core_eq (a b : WSt) (h : core a = core b) : b = { a with rdl := b.rdl } := by
+  obtain ⟨ap, at', ac, aw, awd, ard, ab, af⟩ := a
+  obtain ⟨bp, bt, bc, bw, bwd, brd, bb, bf⟩ := b
+  simp only [core, Prod.mk.injEq] at h
+  obtain ⟨h1, h2, h3, h4, h5, h6, h7⟩ := h
+  subst h1 h2 h3 h4 h5 h6 h7
+  rfl
 
-/-- traffic from the panel is invisible to the writer: the same execution without the `panelTraffic` labels is
-possible and writes the same bytes in the same order -/
-theorem reads_do_not_affect_writes (m : Mode) (ls : List WLbl) : ∀ (s0 s : WSt), wrun m s0 ls = some s →
-    ∃ s', wrun m s0 (ls.filter notTraffic) = some s' ∧ core s' = core s := by
+theorem wstep_core (cfg : Cfg) (m : Mode) (a b a' : WSt) (l : WLbl) (hl : notReaderOp l = true) (hc : core a = core b)
+    (hs : wstep cfg m a l = some a') : ∃ b', wstep cfg m b l = some b' ∧ core a' = core b' := by
+  rw [core_eq a b hc, wstep_rdl cfg m a b.rdl l hl, hs]
+  exact ⟨_, rfl, rfl⟩
+
+/-- **traffic from the panel does not affect the writer**: what incoming traffic does to the shared connection is
+the reader's deadline calls.  For the code as it is (all of them read-only) the same run without any `readerOp` is
+possible and leads to the same writer-visible state — same lists taken, same bytes on the wire, same errors. -/
+theorem reads_do_not_affect_writes (cfg : Cfg) (hro : cfg.readOnly = true) (m : Mode) (ls : List WLbl) :
+    ∀ (s0 t0 s : WSt) (subs : List Submission), WInv m s0 subs → core s0 = core t0 → wrun cfg m s0 ls = some s →
+      ∃ t, wrun cfg m t0 (ls.filter notReaderOp) = some t ∧ core t = core s := by
   induction ls with
-  | nil => intro s0 s h; exact ⟨s, by simpa [wrun] using h, rfl⟩
+  | nil => intro s0 t0 s subs _ hc h; simp [wrun] at h; subst h; exact ⟨t0, rfl, hc.symm⟩
   | cons l ls ih =>
-    intro s0 s h
+    intro s0 t0 s subs hi hc h
     simp only [wrun] at h
     split at h
-    · simp at h
+    · cases h
     · rename_i s1 h1
-      obtain ⟨s', hs', hc⟩ := ih s1 s h
-      cases l with
-      | panelTraffic n =>
-        simp only [wstep, Option.some.injEq] at h1
-        -- s1 differs from s0 only in the `inbound` counter, which no writer step reads
-        have hc0 : core s1 = core s0 := by subst h1; rfl
-        obtain ⟨sb, hsb, hcb⟩ := wrun_core m _ s1 s0 s' hc0 hs'
-        exact ⟨sb, by simpa [List.filter, notTraffic] using hsb, by rw [← hcb, hc]⟩
-      | submit x => exact ⟨s', by simp only [List.filter, notTraffic, wrun, h1]; exact hs', hc⟩
-      | take => exact ⟨s', by simp only [List.filter, notTraffic, wrun, h1]; exact hs', hc⟩
+      have hi1 := winv_step cfg hro m s0 s1 l subs hi h1
+      cases hl : notReaderOp l with
+      | true =>
+        obtain ⟨t1, ht1, hc1⟩ := wstep_core cfg m s0 t0 s1 l hl hc h1
+        obtain ⟨t, ht, hct⟩ := ih s1 t1 s _ hi1 hc1 h
+        exact ⟨t, by simp only [List.filter, hl, wrun, ht1]; exact ht, hct⟩
+      | false =>
+        -- a reader call: only the read deadline changes (the write deadline stays cleared)
+        have hc1 : core s1 = core t0 := by
+          cases l with
+          | readerOp op now =>
+            simp only [wstep] at h1
+            split at h1
+            · rename_i hop
+              simp only [Option.some.injEq] at h1; subst h1
+              rw [← hc]
+              simp only [core, Prod.mk.injEq, true_and]
+              refine ⟨?_, trivial⟩
+              rw [apply_readOnly_wr op now _ (ops_readOnly cfg hro op hop)]
+            · cases h1
+          | submit x => cases hl
+          | take => cases hl
+          | writeOk now => cases hl
+          | writeTimeout now k => cases hl
+          | writeError now k => cases hl
+        obtain ⟨t, ht, hct⟩ := ih s1 t0 s _ hi1 hc1 h
+        exact ⟨t, by simp only [List.filter, hl]; exact ht, hct⟩
+
+/-- the configuration of seeded changes C09-3 / C09-4: `SetDeadline` instead of `SetReadDeadline` before the payload read -/
+def setDeadlineCfg : Cfg := { repaired with payload := .arm .both frameTimeout }
+
+/-- … there incoming traffic *does* affect the writer: a frame from the panel arms a write deadline, a write that is
+in progress 2 s later returns after 2 of its 5 bytes, the error is ignored, the next frame arms the deadline anew and
+the next message goes out whole: the panel receives `01 00 | 01 00 00 00 02`, no prefix of the two frames -/
+theorem set_deadline_breaks_writes_counterexample :
+    setDeadlineCfg.readOnly = false ∧
+    (wrun setDeadlineCfg .binary WSt.init
+      [.submit ⟨[[1], [2]], []⟩, .take, .readerOp (.arm .both frameTimeout) 0, .writeTimeout 2100 2,
+       .readerOp (.arm .both frameTimeout) 2200, .writeOk 2300]).map (fun s => (s.written, s.wdl))
+      = some ([1, 0, 1, 0, 0, 0, 2], some 4200) ∧
+    writeBytes .binary [⟨[[1], [2]], []⟩] = [1, 0, 0, 0, 1, 1, 0, 0, 0, 2] ∧
+    wrun repaired .binary WSt.init
+      [.submit ⟨[[1], [2]], []⟩, .take, .readerOp (.arm .read frameTimeout) 0, .writeTimeout 2100 2] = none := by
+  refine ⟨by decide, by decide, by decide, by decide⟩
 
 theorem writeBytes_binary (subs : List Submission) :
     writeBytes .binary subs = encode (subs.flatMap (·.msgs)) := by
@@ -184,17 +399,200 @@ theorem ascii_one_lf_per_line (subs : List Submission) (h : ∀ s ∈ subs, ∀ 
   obtain ⟨s, hs, hp⟩ := hl
   exact h s hs l hp
 
-/-- **never interleaved**: the bytes of one submission are contiguous, between those of the submissions taken
-before it and those taken after it -/
-theorem writes_never_interleave (m : Mode) (before after : List Submission) (x : Submission) :
-    writeBytes m (before ++ x :: after) = writeBytes m before ++ writeOne m x ++ writeBytes m after := by
-  simp [writeBytes]
+/-! ### reconnects -/
 
-/-! non-vacuity: a concrete execution with two submitters, traffic in between, and its written bytes -/
+structure RInv (s : RSt) : Prop where
+  one : s.writers.length ≤ 1
+  cur : ∀ w ∈ s.writers, w.conn = s.gen
+  quit : s.up = false → ∀ w ∈ s.writers, w.quit = true
+  lost : ∀ e ∈ s.lost, e.2.2 = false
+
+theorem mem_removeAt {α : Type} (l : List α) (i : Nat) (a : α) (h : a ∈ removeAt l i) : a ∈ l := by
+  induction l generalizing i with
+  | nil => simp [removeAt] at h
+  | cons x r ih =>
+    cases i with
+    | zero => simp only [removeAt] at h; exact List.mem_cons_of_mem _ h
+    | succ j =>
+      simp only [removeAt, List.mem_cons] at h
+      rcases h with h | h
+      · simp [h]
+      · exact List.mem_cons_of_mem _ (ih j h)
+
+theorem length_removeAt {α : Type} (l : List α) (i : Nat) : (removeAt l i).length ≤ l.length := by
+  induction l generalizing i with
+  | nil => simp [removeAt]
+  | cons x r ih =>
+    cases i with
+    | zero => simp [removeAt]
+    | succ j => simp only [removeAt, List.length_cons]; have := ih j; omega
+
+theorem rinv_step (s s' : RSt) (l : RLbl) (h : RInv s) (hs : rstep .closeChan s l = some s') : RInv s' := by
+  obtain ⟨h1, h2, h3, h4⟩ := h
+  cases l with
+  | connect =>
+    simp only [rstep] at hs
+    split at hs
+    · rename_i hg
+      simp only [Option.some.injEq] at hs; subst hs
+      have hnil : s.writers = [] := by
+        cases hw : s.writers with
+        | nil => rfl
+        | cons w r =>
+          have q1 := h3 hg.1 w (by simp [hw])
+          have q2 := hg.2
+          rw [hw] at q2
+          simp [q1] at q2
+      refine ⟨by simp [hnil], ?_, by simp, h4⟩
+      intro w hw; simp only [hnil, List.nil_append, List.mem_singleton] at hw; subst hw; rfl
+    · cases hs
+  | lose =>
+    simp only [rstep] at hs
+    split at hs
+    · simp only [Option.some.injEq] at hs; subst hs
+      refine ⟨by simpa using h1, ?_, ?_, h4⟩
+      · intro w hw
+        simp only [List.mem_map] at hw
+        obtain ⟨v, hv, rfl⟩ := hw
+        have := h2 v hv
+        split <;> simp [this]
+      · intro _ w hw
+        simp only [List.mem_map] at hw
+        obtain ⟨v, hv, rfl⟩ := hw
+        simp [h2 v hv]
+    · cases hs
+  | submit => simp only [rstep, Option.some.injEq] at hs; subst hs; exact ⟨h1, h2, h3, h4⟩
+  | take i =>
+    simp only [rstep] at hs
+    split at hs
+    · rename_i w x r hw hc
+      split at hs
+      · cases hs
+      · split at hs
+        · simp only [Option.some.injEq] at hs; subst hs; exact ⟨h1, h2, h3, h4⟩
+        · rename_i hn
+          simp only [Option.some.injEq] at hs; subst hs
+          refine ⟨h1, h2, h3, ?_⟩
+          intro e he
+          simp only [List.mem_append, List.mem_singleton] at he
+          rcases he with he | he
+          · exact h4 e he
+          · subst he
+            have hwc := h2 w (List.mem_of_getElem? hw)
+            cases hu : s.up with
+            | false => rfl
+            | true => exact absurd ⟨hwc, hu⟩ hn
+    · cases hs
+  | block i =>
+    simp only [rstep] at hs
+    split at hs
+    · rename_i w hw
+      split at hs
+      · cases hs
+      · simp only [Option.some.injEq] at hs; subst hs
+        have hwm := List.mem_of_getElem? hw
+        refine ⟨by simpa using h1, ?_, ?_, h4⟩
+        · intro v hv
+          rcases List.mem_or_eq_of_mem_set hv with hv | hv
+          · exact h2 v hv
+          · subst hv; exact h2 w hwm
+        · intro hu v hv
+          rcases List.mem_or_eq_of_mem_set hv with hv | hv
+          · exact h3 hu v hv
+          · subst hv; exact h3 hu w hwm
+    · cases hs
+  | unblock i =>
+    simp only [rstep] at hs
+    split at hs
+    · rename_i w hw
+      split at hs
+      · simp only [Option.some.injEq] at hs; subst hs
+        have hwm := List.mem_of_getElem? hw
+        refine ⟨by simpa using h1, ?_, ?_, h4⟩
+        · intro v hv
+          rcases List.mem_or_eq_of_mem_set hv with hv | hv
+          · exact h2 v hv
+          · subst hv; exact h2 w hwm
+        · intro hu v hv
+          rcases List.mem_or_eq_of_mem_set hv with hv | hv
+          · exact h3 hu v hv
+          · subst hv; exact h3 hu w hwm
+      · cases hs
+    · cases hs
+  | exit i =>
+    simp only [rstep] at hs
+    split at hs
+    · split at hs
+      · simp only [Option.some.injEq] at hs; subst hs
+        exact ⟨Nat.le_trans (length_removeAt _ _) h1, fun w hw => h2 w (mem_removeAt _ _ _ hw),
+          fun hu w hw => h3 hu w (mem_removeAt _ _ _ hw), h4⟩
+      · cases hs
+    · cases hs
+
+theorem rinv_run (ls : List RLbl) : ∀ (s s' : RSt), RInv s → rrun .closeChan s ls = some s' → RInv s' := by
+  induction ls with
+  | nil => intro s s' h hr; simp [rrun] at hr; subst hr; exact h
+  | cons l ls ih =>
+    intro s s' h hr
+    simp only [rrun] at hr
+    split at hr
+    · cases hr
+    · rename_i s1 h1
+      exact ih s1 s' (rinv_step s s1 l h h1) hr
+
+theorem rinv_init : RInv RSt.init := ⟨by simp [RSt.init], by simp [RSt.init], by simp [RSt.init], by simp [RSt.init]⟩
+
+/-- **one writer**: in every run with reconnects (any number of losses, submitters, busy periods) there is at most
+one writer goroutine, and it belongs to the current connection — the writer of a lost connection has always been
+told to stop (`close(quit)` reaches it whatever it is doing) and is gone before the next connection exists -/
+theorem single_writer (ls : List RLbl) (s : RSt) (h : rrun .closeChan RSt.init ls = some s) :
+    s.writers.length ≤ 1 ∧ ∀ w ∈ s.writers, w.conn = s.gen :=
+  ⟨(rinv_run ls _ s rinv_init h).one, (rinv_run ls _ s rinv_init h).cur⟩
+
+/-- **handed over while connected ⇒ written to the live connection**: in every such run, a list that a writer
+receives while a connection is up is written to *that* connection (`wire` grows by `(gen, list)`), and among all
+lists ever received by a writer whose connection was already gone (`lost`) none was received while a connection was up -/
+theorem taken_while_connected_written_to_live_conn (ls : List RLbl) (s : RSt)
+    (h : rrun .closeChan RSt.init ls = some s) :
+    (∀ e ∈ s.lost, e.2.2 = false) ∧
+    (∀ i s', s.up = true → rstep .closeChan s (.take i) = some s' →
+      ∃ x r, s.chan = x :: r ∧ s'.wire = s.wire ++ [(s.gen, x)] ∧ s'.lost = s.lost) := by
+  have hi := rinv_run ls _ s rinv_init h
+  refine ⟨hi.lost, ?_⟩
+  intro i s' hu hs
+  simp only [rstep] at hs
+  split at hs
+  · rename_i w x r hw hc
+    have hwc := hi.cur w (List.mem_of_getElem? hw)
+    split at hs
+    · cases hs
+    · split at hs
+      · simp only [Option.some.injEq] at hs; subst hs
+        exact ⟨x, r, hc, by simp [hwc], rfl⟩
+      · rename_i hn; exact absurd ⟨hwc, hu⟩ hn
+  · cases hs
+
+/-- **the stale writer** (seeded change C09-5: a non-blocking `quit <- true` instead of `close(quit)`): the writer
+of connection 1 is inside `conn.Write` when the connection is lost and never sees the signal; after the reconnect two
+writers receive from the channel, and a list handed over while connection 2 is up is written to dead connection 1 -/
+theorem stale_writer_counterexample :
+    (rrun .trySend RSt.init [.connect, .block 0, .lose, .unblock 0, .connect, .submit, .take 0]).map
+      (fun s => (s.writers.length, s.wire, s.lost)) = some (2, [], [(1, ⟨0, 2⟩, true)]) ∧
+    rrun .closeChan RSt.init [.connect, .block 0, .lose, .unblock 0, .connect] = none ∧
+    (rrun .closeChan RSt.init [.connect, .block 0, .lose, .unblock 0, .exit 0, .connect, .submit, .take 0]).map
+      (fun s => (s.writers.length, s.wire, s.lost)) = some (1, [(2, ⟨0, 2⟩)], []) := by
+  refine ⟨by decide, by decide, by decide⟩
+
+/-! non-vacuity: concrete executions with two submitters, reader calls in between, a broken connection -/
 example :
-    (wrun .binary WSt.init [.submit ⟨[[8, 1]], []⟩, .panelTraffic 7, .submit ⟨[[], [8, 2]], []⟩, .take, .take]).map (·.written)
+    (wrun repaired .binary WSt.init [.submit ⟨[[8, 1]], []⟩, .readerOp (.arm .read frameTimeout) 7, .submit ⟨[[], [8, 2]], []⟩,
+      .take, .writeOk 9, .take, .writeOk 10, .readerOp (.clear .read) 11, .writeOk 5000]).map (·.written)
       = some [2, 0, 0, 0, 8, 1, 0, 0, 0, 0, 2, 0, 0, 0, 8, 2] := by decide
 example :
-    (wrun .ascii WSt.init [.submit ⟨[], [[112, 105, 110, 103]]⟩, .take]).map (·.written) = some [112, 105, 110, 103, 10] := by decide
+    (wrun repaired .ascii WSt.init [.submit ⟨[], [[112, 105, 110, 103]]⟩, .take, .writeOk 3]).map (·.written)
+      = some [112, 105, 110, 103, 10] := by decide
+example :
+    (wrun repaired .binary WSt.init [.submit ⟨[[8, 1], [8, 2]], []⟩, .take, .writeError 5 3, .writeError 6 0]).map
+      (fun s => (s.written, s.failed)) = some ([2, 0, 0], true) := by decide
 
 end RawPanelVerif.C09
